@@ -100,7 +100,7 @@ class Interp:
         lits = []
         for fr in self.frames:
             lits.extend(fr.lits)
-        return tuple(self.pycfg) + tuple(lits)
+        return tuple(self.pycfg) + _drop_implied(lits)
 
     def cur_states(self):
         out = []
@@ -1224,6 +1224,39 @@ class Interp:
             if name and not v.named:
                 hdl.name_value(self, v, name, None)
         self.ir.submodules.append(Submodule(name, v, self.loc(node), dm))
+
+
+def _const_cmp(l):
+    """(K, canonical text of x) for a literal `K == x` with an integer constant K, else None."""
+    e = l.e
+    if l.kind not in ('cond', 'case') or not isinstance(e, E) or e.op != '==' or len(e.args) != 2:
+        return None
+    a, b = e.args
+    if isinstance(a, E) and a.op == 'const' and isinstance(a.val, int) and isinstance(b, E) and b.op != 'const':
+        return a.val, b.canon()
+    if isinstance(b, E) and b.op == 'const' and isinstance(b.val, int) and isinstance(a, E) and a.op != 'const':
+        return b.val, a.canon()
+    return None
+
+
+def _drop_implied(lits):
+    """`x == K` implies `x != K'` for every other constant K': the negated comparisons a later Case / Elif arm inherits
+    from the arms before it say nothing once the arm's own comparison is there.  Dropping them gives a Switch, an If/Elif
+    chain and independent Ifs over the values of one signal the same guards."""
+    pos = {}
+    for l in lits:
+        c = _const_cmp(l)
+        if c and l.pos:
+            pos.setdefault(c[1], set()).add(c[0])
+    if not pos:
+        return tuple(lits)
+    out = []
+    for l in lits:
+        c = _const_cmp(l)
+        if c and not l.pos and any(k != c[0] for k in pos.get(c[1], ())):
+            continue
+        out.append(l)
+    return tuple(out)
 
 
 def _load(t):
